@@ -37,10 +37,10 @@ POOLED = '{"pool","mpool","gcpool","touch"}'
 
 def _poly_runs(tier):
     if tier == "quick":
-        return [dict(name="g3v5", constants=dict(K=3, MaxV=5, WithHoles=True, HoleMinA2=0)),
-                dict(name="g4v4big", constants=dict(K=4, MaxV=4, WithHoles=True, HoleMinA2=20))]
-    return [dict(name="g3v5", constants=dict(K=3, MaxV=5, WithHoles=True, HoleMinA2=0)),
-            dict(name="g4v4", constants=dict(K=4, MaxV=4, WithHoles=True, HoleMinA2=0))]
+        return [dict(name="g3v5", constants=dict(K=3, MaxV=5, WithHoles=True, HoleMinA2=0, BigN="{}")),
+                dict(name="g4v4big", constants=dict(K=4, MaxV=4, WithHoles=True, HoleMinA2=20, BigN="{}"))]
+    return [dict(name="g3v5", constants=dict(K=3, MaxV=5, WithHoles=True, HoleMinA2=0, BigN="{}")),
+            dict(name="g4v4", constants=dict(K=4, MaxV=4, WithHoles=True, HoleMinA2=0, BigN="{}"))]
 
 
 def _pool(tier, runs):
